@@ -36,10 +36,10 @@ Qed.
 Definition unlimited (q : query) : Prop := q_limit q = 0 /\ q_esk q = [].
 
 (* the loop over entries whose primary keys are all stored, once started and without a limit *)
-Lemma loop_unlimited c t q sik spk : forall (pks : list (str * str)) s,
+Lemma loop_unlimited c t q hp sik spk : forall (pks : list (str * str)) s,
   q_limit q = 0 -> s_started s = true ->
   (forall e, In e pks -> mem (snd e) (t_data t) = true) ->
-  obind (search_loop c t q sik spk (map (fun e => (fst e, Some (snd e))) pks) s) (fun s' => Ok (s_items s', s_fired s')) =
+  obind (search_loop c t q hp sik spk (map (fun e => (fst e, Some (snd e))) pks) s) (fun s' => Ok (s_items s', s_fired s')) =
   obind (select_items c t q (map (fun e => get_item t (snd e)) pks)) (fun '(l, f) => Ok (s_items s ++ l, s_fired s ++ f)).
 Proof.
   induction pks as [|[k pk] pks IH]; intros s Hl Hs Hm; cbn [map search_loop select_items fst snd].
@@ -51,7 +51,7 @@ Proof.
     rewrite Hg.
     destruct (match_key c t q it) as [[[ety m] f]| | |]; cbn [obind]; auto.
     rewrite Hl. cbn [Nat.eqb negb andb].
-    match goal with |- context [search_loop c t q sik spk _ ?s1] => specialize (IH s1 Hl eq_refl) end.
+    match goal with |- context [search_loop c t q hp sik spk _ ?s1] => specialize (IH s1 Hl eq_refl) end.
     rewrite IH by (intros e He; apply Hm; now right). cbn [s_items s_fired].
     destruct (select_items c t q (map (fun e => get_item t (snd e)) pks)) as [[l f']| | |]; cbn [obind]; auto.
     destruct m; cbn; rewrite <- ?app_assoc; reflexivity.
@@ -68,13 +68,13 @@ Proof.
   set (ks := if q_forward q then t_sorted t else rev (t_sorted t)).
   assert (forall k, In k ks -> mem k (t_data t) = true) as Hm.
   { intros k Hk. apply mem_true_iff. rewrite <- Hs. unfold ks in Hk. destruct (q_forward q); auto. now apply in_rev. }
-  pose proof (loop_unlimited c t q [] [] (map (fun k => (k, k)) ks)
+  pose proof (loop_unlimited c t q true [] [] (map (fun k => (k, k)) ks)
                 {| s_started := true; s_count := 0; s_scanned := 0; s_last := []; s_items := []; s_fired := [] |} Hl eq_refl) as L.
   rewrite !map_map in L. cbn [fst snd s_items s_fired app] in L.
   assert (forall e, In e (map (fun k => (k, k)) ks) -> mem (snd e) (t_data t) = true) as Hm'.
   { intros e He'. apply in_map_iff in He' as [k [<- Hk]]. now apply Hm. }
   specialize (L Hm').
-  destruct (search_loop c t q [] [] (map (fun k => (k, Some k)) ks) _) as [s'| | |] eqn:R; cbn [obind] in *.
+  destruct (search_loop c t q true [] [] (map (fun k => (k, Some k)) ks) _) as [s'| | |] eqn:R; cbn [obind] in *.
   - rewrite Hl. cbn [Nat.eqb].
     destruct (select_items c t q (map (get_item t) ks)) as [[l f]| | |]; cbn in L; try discriminate.
     inversion L; subst. cbn. destruct (s_last s'); reflexivity.
